@@ -416,6 +416,10 @@ fn arg_strategy() -> impl Strategy<Value = Vec<u16>> {
     let piece = prop_oneof![
         4 => prop::sample::select(vec![b'a' as u16, b'b' as u16, 0xe9, 0x4e2d, b'-' as u16, b'=' as u16]).prop_map(|c| vec![c]),
         3 => prop::sample::select(vec![SP, TAB, 0x0a, 0x0b]).prop_map(|c| vec![c]),
+        // ordinary characters whose low byte is one of the special ASCII characters
+        // (or NUL): a code unit must be compared as a whole
+        2 => prop::sample::select(vec![0x0122u16, 0x0422, 0x2022, 0x015c, 0x305c, 0x0120, 0x0109, 0x010a, 0x010b, 0x0100, 0x3000, 0xdc22, 0xd85c, 0xff02, 0xff3c]).prop_map(|c| vec![c]),
+        1 => (0x80u16..=0xffff).prop_map(|c| vec![c]),
         3 => Just(vec![QUOTE]),
         3 => (1usize..5).prop_map(|n| vec![BS; n]),
         3 => (1usize..5).prop_map(|n| { let mut v = vec![BS; n]; v.push(QUOTE); v }),
@@ -536,7 +540,7 @@ fn replay(_ctx: &Ctx, _engine: &str, case: &Value) -> CaseResult {
 static C20: PropDef = PropDef {
     id: "C20",
     level: "exploration",
-    rule: "argv vectors [prog, s] for every string s up to length 5 (thorough 6) over {a, space, tab, \", \\, newline, e-acute}, all pairs (s1, s2) up to length 3 (4), all strings up to length 3 over that alphabet plus NUL containing a NUL (must be rejected), and random vectors of 1..7 arguments of length 0..40 weighted to backslash runs before quotes / at the end. Each is passed to the crate's assemble_cmdline (extracted from /repo/src/popen.rs at build time) and the result is parsed by two independent reference implementations of Microsoft's rules (C runtime 2008+, CommandLineToArgvW); both must return the original vector. Non-trivial = some argument is empty or contains a blank, quote, newline or trailing backslash; distinct = distinct argument vectors among those.",
+    rule: "argv vectors [prog, s] for every string s up to length 5 (thorough 6) over {a, space, tab, \", \\, newline, e-acute}, all pairs (s1, s2) up to length 3 (4), all strings up to length 3 over that alphabet plus NUL containing a NUL (must be rejected), and random vectors of 1..7 arguments of length 0..40 weighted to backslash runs before quotes / at the end, with ordinary characters drawn from all of UTF-16 (lone surrogates included) and weighted to code units whose low byte equals a special ASCII character or NUL. Each is passed to the crate's assemble_cmdline (extracted from /repo/src/popen.rs at build time) and the result is parsed by two independent reference implementations of Microsoft's rules (C runtime 2008+, CommandLineToArgvW); both must return the original vector. Non-trivial = some argument is empty or contains a blank, quote, newline or trailing backslash; distinct = distinct argument vectors among those.",
     assumptions: &[
         "no Windows here: CreateProcessW and the real CRT are not run; the claim is about the string under Microsoft's published parsing rules",
         "reference parsers are pinned to Microsoft's documented examples at the start of every run",
